@@ -22,6 +22,7 @@ var c19Vals = []c19Val{
 	{`{"k": 1, 0: 2}`, `{"k": 2, 0: 2}`, "map"}, {`{"k": 1, 0: 2, 1: 3, 2: 4, 3: 5}`, `{"k": 2, 0: 2, 1: 3, 2: 4, 3: 5}`, "map"},
 	{`[[1, 2, 3, 4, 5, 6, 7, 8, 9], {"k": 1, 0: 2, 1: 3, 2: 4, 3: 5}]`, "[[1], {}]", "array"},
 	{"func(x) { x + 1 }", "func(x) { x + 2 }", "func"}, {"x => x", "x => x * 2", "func"},
+	{"[0, 1, 2, 3, 4, 5, 6, 7, 8, 9, 10, 11]", "[0, 1, 2, 3, 4, 5, 6, 7, 8, 9, 10, 12]", "array"},
 }
 
 // mutation attempts; %C = constant name, %v = the new value
@@ -33,6 +34,9 @@ var c19Paths = []string{
 	"func(U9) { U9 = U9 + 1; U9 }(3)", "func(U9) { ++U9; U9 }(3)", "func(U9) { for U9 = 2 { }; U9 }(3)", "func(U9) { U9 = \"s\"; U9 }(3)", "for U8 = 2 { U8 = 5 }", "func(a, U9) { U9-- }(1, 2)",
 	"[%C][0][0]", "%C = %C", "func(x) { %C = x }(%v)", "for e9 = [%v] { %C = e9 }", "x9 = %C; x9 = %v", "%C, b9 = %v",
 	"f9 = func(..) { %C = ..[0] }; f9(%v)", "m9 = {\"c\": %C}; m9.c = %v", "func %C() { 1 }", "%C = func() { 2 }", "del(%C[1])", "%C[1] = %v", "b9 = %C + []; b9[0] = %v", "b9 = %C[0:]; b9[0] = %v", "b9 = rest(%C); b9[0] = %v",
+	// slices of the constant (they may share its storage): re-binding to a strict prefix, appending to a prefix
+	"%C = %C[0:10]", "%C = %C[0:1]", "%C = %C[1:]", "%C := %C[0:10]", "b9 = %C[0:10] + %v", "b9 = %C[0:10]; b9 = b9 + %v; c9 = b9 + 0", "b9 = %C[0:1] + [%v]", "b9 = %C[0:10]; b9[0] = %v",
+	"b9 = %C[0:10] + [%v, %v]", "func(x) { x = x[0:10] + %v; x }(%C)", "b9 = %C[2:9]; b9 = b9 + %v",
 }
 
 var c19Scopes = []struct{ name, tpl string }{
